@@ -224,6 +224,22 @@ func (p *Prog) originOf(v ssa.Value, depth int) ssa.Value {
 			if n == 1 {
 				return p.originOf(stored, depth+1)
 			}
+			// several stores (a parameter that is re-assigned and then captured): the one that
+			// decides the value at this load, when the load is in the allocating function
+			if _, isFV := x.X.(*ssa.FreeVar); !isFV && n > 1 {
+				if stores, esc := allocStores(al); !esc {
+					var whole []*ssa.Store
+					for _, st := range stores {
+						if st.field >= 0 {
+							return v
+						}
+						whole = append(whole, st.st)
+					}
+					if w, ok := latestDominating(whole, x); ok && w != nil {
+						return p.originOf(w.Val, depth+1)
+					}
+				}
+			}
 		}
 		return v
 	case *ssa.Extract:
